@@ -38,6 +38,13 @@ func (c *FnCtx) callSchema(st *State, call *ast.CallExpr, key string, argExprs [
 			c.unsupportedf(call, "sort.Search with a non-literal function")
 		}
 		return []*Term{c.searchSchema(st, call, argExprs[0], lit)}, true
+	case "slices.ContainsFunc":
+		if lit, ok := litOf(argExprs[1]); ok {
+			if r := c.containsFuncSchema(st, call, argExprs[0], lit); r != nil {
+				return []*Term{r}, true
+			}
+		}
+		return nil, false
 	case "sync.Once.Do":
 		lit, ok := litOf(argExprs[0])
 		if !ok {
@@ -233,6 +240,52 @@ func (c *FnCtx) searchSchema(st *State, call *ast.CallExpr, nE ast.Expr, lit *as
 		st.pc = append(st.pc, mkImplies(mkLt(intLit(0), r), mkNot(outs[0].st.ret[0])))
 		st.pc = append(st.pc, guardAll(mkLt(intLit(0), r), outs[0].st.pc[base:])...)
 	}
+	return r
+}
+
+// containsFuncSchema: slices.ContainsFunc(s, pred) with a predicate literal that is a pure expression of its argument
+// (one path, no writes, no new facts): the result is "some element satisfies the predicate". The predicate becomes an
+// SMT function of the element (define-fun over the term obtained by running the literal on a fresh element); its safety
+// is checked on an arbitrary element of the slice. Returns nil if the literal is not of that form (the caller then falls
+// back to the unconstrained result).
+func (c *FnCtx) containsFuncSchema(st *State, call *ast.CallExpr, sE ast.Expr, lit *ast.FuncLit) *Term {
+	sl, ok := types.Unalias(c.typeOf(sE)).Underlying().(*types.Slice)
+	if !ok {
+		return nil
+	}
+	s := c.eval(st, sE)
+	n := c.sliceLen(s)
+	// the predicate as a function of the element
+	e := c.freshOfType(st, "cf_elem", sl.Elem())
+	q := st.clone()
+	base := len(q.pc)
+	saved := len(c.obls)
+	log := c.dryRun(st, func(s2 *State) { c.runClosureBody(s2, lit, []*Term{e}) })
+	outs := c.runClosureBody(q, lit, []*Term{e})
+	c.obls = c.obls[:saved]
+	wrote := len(log.heaps) > 0 || len(log.globs) > 0 || log.ghosts || len(log.whole) > 0
+	for v := range log.vars {
+		if v.Pos() < lit.Pos() || v.Pos() > lit.End() {
+			wrote = true // a variable of the enclosing function
+		}
+	}
+	if len(outs) != 1 || len(outs[0].st.ret) != 1 || len(outs[0].st.pc) != base || wrote {
+		return nil
+	}
+	c.trustedUsed["schema: slices.ContainsFunc(s, f) reports whether f holds for some element of s"] = true
+	// safety of the predicate on an arbitrary element
+	probe := c.smt.freshConst("probe", SInt)
+	p := st.clone()
+	p.pc = append(p.pc, mkLe(intLit(0), probe), mkLt(probe, n))
+	c.runClosureBody(p, lit, []*Term{c.sliceAt(s, probe)})
+	body := outs[0].st.ret[0]
+	c.cfCount++
+	fn := fmt.Sprintf("cfpred!%s!%d", sanitize(c.fi.Key), c.cfCount)
+	c.smt.decls = append(c.smt.decls, Decl{fn, fmt.Sprintf("(define-fun %s ((%s %s)) Bool %s)", fn, e.Op, e.Sort, body)})
+	c.smt.declared[fn] = true
+	r := c.smt.freshConst("containsfunc", SBool)
+	i := leaf(fmt.Sprintf("cf!d%d", c.cfCount), SInt)
+	st.pc = append(st.pc, mkEq(r, mkExists([]Bound{{i.Op, SInt}}, mkAnd(mkLe(intLit(0), i), mkLt(i, n), mk(fn, SBool, c.sliceAt(s, i))), []*Term{c.sliceAt(s, i)})))
 	return r
 }
 
